@@ -715,7 +715,12 @@ fn replay_one(beh: &Value, work: &str, idx: usize) -> Value {
 					let sp = ids_json(&w, &n.pool.stempool.all_transactions());
 					let gone: Vec<Vec<u64>> = pre.iter().filter(|e| !tp.contains(e)).cloned().collect();
 					if gone.len() == 1 {
-						let (_, vouts) = w.ins_outs(&gone[0]);
+						let (_, vouts0) = w.ins_outs(&gone[0]);
+						// outputs of the victim that no remaining public entry creates as well
+						let vouts: BTreeSet<u64> = vouts0
+							.into_iter()
+							.filter(|c| !tp.iter().any(|y| y.iter().filter_map(|a| w.atoms.get(a)).any(|a| a.outs.contains(c))))
+							.collect();
 						let dep = |y: &Vec<u64>| w.ins_outs(y).0.intersection(&vouts).next().is_some();
 						if tp.iter().any(|y| dep(y)) {
 							mism.push(json!({"step": i, "what": "evict_victim_has_dependants", "victim": gone[0],
